@@ -47,6 +47,7 @@ def _dag_units():
 
 # property id -> list of (module, factory, args, variant)
 PROOF_UNITS = {
+    'C20': [('contracts.conformity', 'SlidingDeltaConformity', (cls,), {'args': a}) for cls in ('DynGraph', 'DynDiGraph') for a in ('all', 'defaults')],
     'C15': _dag_units(),
     'C12': _dag_units(),
     'C13': _dag_units(),
@@ -107,7 +108,7 @@ LEVELS = {
     'C01': 'other', 'C03': 'other', 'C04': 'other', 'C05': 'other', 'C07': 'other', 'C08': 'other',
     'C02': 'other', 'C06': 'other', 'C16': 'other', 'C17': 'other', 'C19': 'other',
     'C09': 'other', 'C10': 'other', 'C11': 'other', 'C18': 'other',
-    'C12': 'exploration', 'C13': 'exploration', 'C14': 'proof', 'C15': 'exploration', 'C20': 'exploration',
+    'C12': 'exploration', 'C13': 'exploration', 'C14': 'proof', 'C15': 'other', 'C20': 'other',
 }
 
 from .manifest_data import CLAIMS as _CLAIMS
